@@ -330,7 +330,7 @@ def replay_form(case, runner):
     """The same case with the PRNG-driven schedule replaced by the decision
     list that was actually taken (None if it already is S0/replay)."""
     sc = case.get("sched") or {}
-    if sc.get("kind") not in ("pct", "site"):
+    if sc.get("kind") not in ("pct", "site") and not sc.get("eager"):
         return None
     c = dict(case)
     s2 = {k: v for k, v in sc.items() if k in ("step_cost_us", "oversleep",
@@ -354,7 +354,8 @@ def detsim_stats(res, case, r):
     for k, v in r.faults.items():
         cnt["fault:" + k] = cnt.get("fault:" + k, 0) + v
     for name, v in (("preempt", det.n_switch), ("timer_fire", det.n_timer_fire),
-                    ("stall", det.n_stall), ("clock_jump", det.n_fault_clock_jump)):
+                    ("stall", det.n_stall), ("clock_jump", det.n_fault_clock_jump),
+                    ("eager_poller", det.n_eager)):
         if v:
             cnt["fault:" + name] = cnt.get("fault:" + name, 0) + v
     sums["sim_wall_seconds"] = sums.get("sim_wall_seconds", 0.0) + (det.clock - det.t0)
